@@ -55,7 +55,7 @@ pub fn spec_for3(property: &str) -> Option<CheckSpec> {
                 thorough_runs: 400_000,
                 quick_budget_s: 60,
                 thorough_budget_s: 600,
-                nontrivial_rule: "a share of concurrent runs (conc, conc-burst with the observer channel capacity knob): a wedge between clients and the worker (nothing runnable while operations are pending) counts as lost liveness. Otherwise seeded sequences of public calls in every active-blob state: all *_in_background requests whether or not they apply, force_update with three predicates, data operations, free_excess_resources, fsync, idle periods around the deferred-dump times, wall-clock jumps of +-1 s and +-1 h; then the overflow probe, an idle period longer than deferred_max, and close. Oracle: the active blob is switched within the probe, every closed blob with records has an up-to-date index file, close() returns within the bound, no task panics. Non-trivial = the probe ran after at least one non-applicable background request, clock jump or manual close; distinct = distinct I/O event signature",
+                nontrivial_rule: "profile live+closerace: close() called at once behind writes, a close of the active blob and background requests (queued requests, dumps in flight, possibly no active blob); profile live+slowdump: steadily slow disk (0..80 ms per file operation), small blobs, one dump pass spans several 200 ms quanta. Otherwise: a share of concurrent runs (conc, conc-burst with the observer channel capacity knob): a wedge between clients and the worker (nothing runnable while operations are pending) counts as lost liveness. Otherwise seeded sequences of public calls in every active-blob state: all *_in_background requests whether or not they apply, force_update with three predicates, data operations, free_excess_resources, fsync, idle periods around the deferred-dump times, wall-clock jumps of +-1 s and +-1 h; then the overflow probe, an idle period longer than deferred_max, and close. Oracle: the active blob is switched within the probe, every closed blob with records has an up-to-date index file, close() returns within the bound, no task panics. Non-trivial = the probe ran after at least one non-applicable background request, clock jump or manual close; distinct = distinct I/O event signature",
                 nontrivial: nt_live,
                 assumptions: a,
                 expected_probes: vec!["nonapplicable_bg_request", "probe_rotated", "clock_jump"],
